@@ -21,3 +21,12 @@ func (a *PeriodicalAnnouncer) VerifSetBackoff(initial, max time.Duration) {
 
 // VerifNeedSignalPending reports whether a NeedMorePeers signal is still queued for the run loop.
 func (a *PeriodicalAnnouncer) VerifNeedSignalPending() bool { return len(a.needMorePeersC) > 0 }
+
+// VerifTrackerURLs returns the trackers the stopped event is announced to.
+func (a *StopAnnouncer) VerifTrackerURLs() []string {
+	var out []string
+	for _, t := range a.trackers {
+		out = append(out, t.URL())
+	}
+	return out
+}
